@@ -178,13 +178,23 @@ def build(case):
         # the same sub-program objects were laid out before, in another
         # program with another order (a regrouped / restarted controller)
         def preprogram(self):
+            # the earlier program uses the sub-programs' variables too
+            for s_ in self.subprograms:
+                for n_, f_ in list(type(s_).__dict__.items()):
+                    if isinstance(f_, LocalVar) and \
+                            isinstance(f_.fmt, str):
+                        setattr(s_, n_, 1)
             self.r0 = 2
             self.exit()
         extra = [subclasses[0]()]
-        type("VfC04Pre", (XDP,), {"license": "GPL", "m": m,
-                                  "pv": m.globalVar("Q"),
-                                  "program": preprogram})(
+        pre = type("VfC04Pre", (XDP,), {"license": "GPL", "m": m,
+                                        "pv": m.globalVar("Q"),
+                                        "program": preprogram})(
             subprograms=extra + subs[::-1])
+        try:
+            pre.assemble()
+        except Exception:
+            pass
     inits = []
     for i, (where, kind, n, f) in enumerate(case["vars"]):
         size = struct.calcsize(f)
